@@ -104,6 +104,21 @@ def run_e2e(ctx, n, tag):
             if "pre0.rb" in sp or "pre1.rb" in sp or "pre2.rb" in sp:
                 bad = ("a line names a preloaded file", want, got, fl)
             elif want != got:
+                # K36: the first diagnostic of every row agrees and only LATER diagnostics of already reported rows differ
+                def firsts(rows):
+                    seen, out = set(), []
+                    for (p, r, x) in rows:
+                        if p == "" and r in seen:
+                            continue
+                        if p == "":
+                            seen.add(r)
+                        out.append((p, r, x))
+                    return out
+                kf = next((f for f in ctx.findings if f.get("status") == "open" and f.get("predicate") == "second-diagnostic-on-a-reported-row"), None)
+                if kf and firsts(want) == firsts(got) and len(want) == len(got):
+                    if kf["id"] not in ctx.known_hits:
+                        common.known_finding(ctx, kf, kf["what"])
+                    continue
                 bad = ("target output differs from the concatenation's", want, got, fl)
         if bad:
             failures.append({"kind": "preload-not-a-prefix", "why": bad[0], "flags": bad[3], "preloads": parts, "target": target,
